@@ -136,6 +136,26 @@ func c18(c *Ctx) {
 		}
 	}
 
+	{
+		var bad []string
+		n := 0
+		for _, name := range append(append([]string{}, decoders...), "internal.ReadN") {
+			fn := c.F(name)
+			if fn == nil {
+				continue
+			}
+			n++
+			for _, in := range InstrsDeep(fn, p.PlainCalls("bytes.(*Buffer).Grow", "slices.Grow", "strings.(*Builder).Grow")) {
+				bad = append(bad, name+" pre-sizes a buffer at "+c.where(in))
+			}
+		}
+		d := "no decoder reserves buffer space ahead of the bytes it has received (Grow): buffers grow with the data"
+		if len(bad) > 0 {
+			c.fail("alloc/no-presizing", "K12 TaintAlloc", d, "a 32-bit length prefix followed by a few bytes would allocate the announced size", strings.Join(bad, "; "), n)
+		} else {
+			c.ok("alloc/no-presizing", "K12 TaintAlloc", d, n)
+		}
+	}
 	c.ExpectAll("posmap/server-reads-whole-map", c.CallArgs("http.(*Server).handlePostStream", p.PlainCalls("http.ReadPosMapFrom"), 0), pat("net/http.(*Request).WithContext(p2, @@).Body")+"|"+pat("p2.Body"), 1,
 		"the primary reads the replica's position map from the request body itself - the writer puts no bound on the map, so the reader must not either", "a valid map the client can write (tens of thousands of databases) would be refused on every reconnect")
 	c.ExpectAll("chunk/reader-no-read-ahead", c.fieldStores("chunk.NewReader", "chunk.Reader.r"), "p0", 1, "the chunk reader reads from the caller's reader itself - no buffering layer that could read past the end-of-body marker",
